@@ -160,6 +160,37 @@ def run(ctx):
                     if Gm.globmatch(pre + '/FILE.TXT', spell + '/file.txt', flags=fl_):
                         ctx.counterexample('FORCEWIN|CASE: %r matches %r (the rest of the path must stay case-sensitive)' % (spell + '/file.txt', pre + '/FILE.TXT'),
                                            {'pattern': spell + '/file.txt', 'name': pre + '/FILE.TXT'})
+    # alternatives that differ only in case (lists, BRACE, SPLIT): a multi-pattern is the union of its alternatives in every mode
+    for bits in range(16):
+        for mode in ('fnmatch', 'glob'):
+            api = Fm if mode == 'fnmatch' else Gm
+            fv = (api.CASE if bits & 1 else 0) | (api.IGNORECASE if bits & 2 else 0) | (api.FORCEWIN if bits & 4 else 0) | (api.FORCEUNIX if bits & 8 else 0)
+            mt = (lambda n_, p_, x=0: Fm.fnmatch(n_, p_, flags=fv | x)) if mode == 'fnmatch' else (lambda n_, p_, x=0: Gm.globmatch(n_, p_, flags=fv | x))
+            for alts in (['abc', 'Abc'], ['Abc', 'abc', 'ABC'], ['x', 'X'], ['aB*', 'Ab*']):
+                for n_ in ('abc', 'Abc', 'ABC', 'aBc', 'x', 'X', 'abz', 'ABz'):
+                    evals += 1
+                    want = any(mt(n_, a_) for a_ in alts)
+                    got = {'list': mt(n_, alts), 'brace': mt(n_, '{%s}' % ','.join(alts), api.BRACE), 'split': mt(n_, '|'.join(alts), api.SPLIT),
+                           'compile': api.compile(alts, flags=fv).match(n_), 'filter': n_ in (Fm.filter([n_], alts, flags=fv) if mode == 'fnmatch' else Gm.globfilter([n_], alts, flags=fv))}
+                    bad = [k for k, v in got.items() if v != want]
+                    if bad:
+                        ctx.counterexample('%s(%r, %r as %s, %s) = %r but the alternatives taken one by one give %r' % (mode, n_, alts, bad[0], corr.flag_names(fv), got[bad[0]], want),
+                                           {'api': mode, 'name': n_, 'alternatives': alts, 'how': bad[0], 'flags': corr.flag_names(fv)})
+                        break
+    # the file-system walk: entries that differ only in case, literal pattern text in every spelling
+    import trees as _tr
+    with _tr.Tree([('abc', 'd', None), ('abc/x', 'f', None), ('ABC', 'd', None), ('ABC/y', 'f', None), ('Abc', 'd', None), ('Abc/z', 'f', None),
+                   ('notes', 'd', None), ('notes/N1', 'f', None), ('other', 'f', None)]) as TC:
+        for pat_ in ('abc/*', 'ABC/*', 'aBC/*', 'Abc/*', 'abc/X', 'ABC/x', '*/x', 'NOTES/n1', 'notes/*'):
+            for fl_, ci_ in ((Gm.IGNORECASE, True), (0, False), (Gm.CASE | Gm.IGNORECASE, False)):
+                evals += 1
+                got = sorted(Gm.glob(pat_, flags=fl_, root_dir=TC.root))
+                ents = ['abc/x', 'ABC/y', 'Abc/z', 'notes/N1']
+                want = sorted(e for e in ents if Gm.globmatch(e, pat_, flags=fl_ | Gm.FORCEUNIX))
+                if got != want or sorted(Gm.iglob(pat_, flags=fl_, root_dir=TC.root)) != want or \
+                        sorted(str(x.relative_to(TC.root)) for x in __import__('wcmatch.pathlib', fromlist=['Path']).Path(TC.root).glob(pat_, flags=fl_)) != want:
+                    ctx.counterexample('glob(%r, %s) on a tree with abc/, ABC/, Abc/ returns %r; matching entry by entry gives %r' % (pat_, corr.flag_names(fl_), got, want),
+                                       {'pattern': pat_, 'flags': corr.flag_names(fl_), 'got': got, 'want': want})
     ctx.counted('mode table + metamorphic closure', evals, len(nontriv), [{'pattern': 'a*C', 'name': 'aXc'}, {'pattern': '//host/share/*', 'name': '\\\\host\\share\\x'}])
     return ctx.finish(RULE)
 
